@@ -103,9 +103,12 @@ func (szr *Sizer) GetAt(values map[string]string, idx uint16) (map[string]string
 				return nil, fmt.Errorf("no more values in index")
 			}
 			c := szr.crsrs[idx]
+			if int(c) > len(v) {
+				return nil, fmt.Errorf("cursor %v beyond sink content length %v", c, len(v))
+			}
 			v = v[c:]
 			nl := strings.Index(v, "\n")
-			if nl > 0 {
+			if nl >= 0 {
 				v = v[:nl]
 			}
 			b := bytes.ReplaceAll([]byte(v), []byte{0x00}, []byte{0x0a})
